@@ -34,7 +34,7 @@ def plan(tier):
 
 def floors(tier):
     return {"min_decided": 400, "counters": {"nodes_checked": 3000, "duplicates_refused": 100, "universe_probes": 3000, "substrategy_columns": 500,
-                                             "lazy_eager_pairs": 150, "lazy_created_nodes": 200, "struct_universe_evals": 800, "dynamic_children": 100, "members_evals": 3000}, "max_undecided_frac": 0.3}
+                                             "lazy_eager_pairs": 150, "lazy_created_nodes": 200, "struct_universe_evals": 800, "dynamic_children": 100, "members_evals": 1500}, "max_undecided_frac": 0.3}
 
 
 # ------------------------------------------------------------------ struct
